@@ -4,6 +4,7 @@ Each model states what the *library* does, nothing about quantem:
 
   np.linspace(a, b, n)[i] = a + i*(b-a)/(n-1)   (n > 1),  [a] for n == 1   (over the reals, A1; always built exactly,
                                                  also for concrete arguments, so that 1/3 is the rational 1/3)
+  np.mod(a, b) = a - b*floor(a/b) elementwise
   np.deg2rad(x) = x*pi/180 ; np.sin / np.cos elementwise (uninterpreted, A4) ; np.floor elementwise
   np.round(x)   = an integer r(x) with |r(x) - x| <= 1/2  (round-half-even, A3: only this bound is used)
   np.stack / np.zeros / np.minimum / np.maximum : pointwise index functions
@@ -268,6 +269,17 @@ def install(reg):
         return f(x) if contains_sym(x) else interp.native(np.floor, x)
 
     M[np.floor] = m_floor
+
+    def m_mod(interp, a, b, **kw):
+        """np.mod(a, b) = a - b*floor(a/b) elementwise (Python / numpy sign convention)"""
+        if not contains_sym((a, b)):
+            return interp.native(np.mod, a, b, **kw)
+        if isinstance(a, SymArr) or isinstance(b, SymArr):
+            return V.elementwise(lambda p, q: S(p) % q, a, b, kind=getattr(a, "kind", "real"))
+        return S(a) % b
+
+    M[np.mod] = m_mod
+    M[np.remainder] = m_mod
 
     def _round1(ctx, e):
         t = V._num(lift(e))
